@@ -143,6 +143,17 @@ func New(id string) *Report {
 
 func (r *Report) Thorough() bool { return r.Tier == "thorough" }
 
+// SetBudget moves the internal deadline to sec seconds after the start of the run
+// (VERIF_BUDGET_S, when given, still wins).
+func (r *Report) SetBudget(sec float64) {
+	if os.Getenv("VERIF_BUDGET_S") != "" {
+		return
+	}
+	r.mu.Lock()
+	r.deadline = r.start.Add(time.Duration(sec * float64(time.Second)))
+	r.mu.Unlock()
+}
+
 // Expired reports whether the internal wall-clock budget is used up. A check
 // that stops because of it must call Cap(...) — it then exits 0, exhaustive:false.
 func (r *Report) Expired() bool {
